@@ -213,6 +213,8 @@ def execute_extreme(plan, keep_log=False):
         res.count("extreme.beyond.accepted")
     N = p["nx"]
     prev = numpy.array(s.scrn, copy=True)
+    if not numpy.isfinite(prev).all():
+        res.violate("finite", "C05:non-finite-values:%s:initial-screen" % kind, "%s screen %s: non-finite initial screen" % (kind, p), -1)
     with numpy.errstate(all="ignore"):
         for i in range(plan["rows"]):
             try:
@@ -226,9 +228,12 @@ def execute_extreme(plan, keep_log=False):
                 res.violate("shape", "C05:exposed-shape-wrong:%s" % kind, "shape %s after %d rows (%s)" % (cur.shape, i + 1, p), i)
                 break
             if not numpy.isfinite(cur).all():
-                res.violate("finite", "C05:non-finite-values:%s%s" % (kind, cls),
+                # the known divergence is exponential growth that needs several hundred rows to overflow; non-finite values
+                # within the first rows are something else
+                early = ":within-the-first-30-rows" if i < 30 else ""
+                res.violate("finite", "C05:non-finite-values:%s%s%s" % (kind, cls if not early else "", early),
                             "%s screen %s (L0/pixel = %.3g): non-finite values after %d rows" % (kind, p, p["L0"] / p["px"], i + 1), i)
-                if beyond:
+                if beyond and not early:
                     res.count("extreme.beyond.diverged")
                 break
             if screens.abytes(cur[1:]) != screens.abytes(prev[:-1]):
